@@ -43,6 +43,9 @@ import TvCore.Proofs.LinksWorldC14
   4. C14: `send_scheduled`, `not_delivered_early`, `matures_at_tick`, `waits_until_handed`,
      `handed_at_turn`, combined in `healthy_delivered_in_window`; `equal_latency_fifo`; `matured_run`,
      `run_now`, `LW.clockOK_run` discharge the clock / queue hypotheses for reachable worlds.
+  The repair of F-C08-1 / F-C03-2 (`Link.fixMatured`): the theorems here hold for both variants (hypotheses
+  `ReadyOK`, `RecallsOn` say where the variant matters); the variant-specific ones are in
+  `Props/LinksMatured.lean`.
   Not done: the release theorem for an arbitrary interleaving of steps between `release` and the next
   clock tick (only conservation — `never_duplicated`, `waits_until_handed` — is general).
 -/
@@ -86,7 +89,7 @@ theorem ctlOps_holdOk (w : World) (li : Nat) (op : NetCtl) (x y : Nat) (h : ¬ (
 /-- one step that does not end the hold keeps the link held, appends new sends to the in-flight queue
     and hands out only what was already deliverable. -/
 theorem held_step (cfg : Cfg) (w : World) (st : Step) (li : Nat) (l : Link Env) (ops : List GOp)
-    (hh : C08.Held l) (hl : w.links[li]? = some l) (hs : StepOps w li l ops st) (hno : ¬ EndsHold w li st) :
+    (hh : C08.Held l) (hq : ReadyOK l) (hl : w.links[li]? = some l) (hs : StepOps w li l ops st) (hno : ¬ EndsHold w li st) :
     HeldRel l (grun cfg l ops).1 (grun cfg l ops).2 := by
   cases st with
   | host h hop =>
@@ -94,10 +97,10 @@ theorem held_step (cfg : Cfg) (w : World) (st : Step) (li : Nat) (l : Link Env) 
     case net c a b =>
       have h' : ops = ctlOps w li (ctlOf c) a b := hs
       subst h'
-      exact held_grun cfg hh _ (ctlOps_holdOk w li c a b hno)
-    all_goals exact held_grun cfg hh _ (fun o ho => isSend_holdOk ((hs : Sends w l ops) o ho).1)
-  | crash h => exact held_grun cfg hh _ (fun o ho => isSend_holdOk ((hs : Sends w l ops) o ho).1)
-  | bounce h => exact held_grun cfg hh _ (fun o ho => isSend_holdOk ((hs : Sends w l ops) o ho).1)
+      exact held_grun cfg hh hq _ (ctlOps_holdOk w li c a b hno)
+    all_goals exact held_grun cfg hh hq _ (fun o ho => isSend_holdOk ((hs : Sends w l ops) o ho).1)
+  | crash h => exact held_grun cfg hh hq _ (fun o ho => isSend_holdOk ((hs : Sends w l ops) o ho).1)
+  | bounce h => exact held_grun cfg hh hq _ (fun o ho => isSend_holdOk ((hs : Sends w l ops) o ho).1)
   | register ip c => have h' : ops = [] := hs; subst h'; exact HeldRel.refl hh
   | dns n => have h' : ops = [] := hs; subst h'; exact HeldRel.refl hh
   | stepEnd => have h' : ops = [] := hs; subst h'; exact HeldRel.refl hh
@@ -105,25 +108,25 @@ theorem held_step (cfg : Cfg) (w : World) (st : Step) (li : Nat) (l : Link Env) 
   | stepBegin =>
     have h' : ops = [.tick (w.now + ceilMs w.cfg.tick)] := hs
     subst h'
-    exact held_grun cfg hh _ (fun o ho => by simp only [List.mem_singleton] at ho; subst ho; exact trivial)
+    exact held_grun cfg hh hq _ (fun o ho => by simp only [List.mem_singleton] at ho; subst ho; exact trivial)
   | turn h =>
-    obtain ⟨replies, hq, he⟩ := hs
+    obtain ⟨replies, hrep, he⟩ := hs
     subst he
-    apply held_grun cfg hh
+    apply held_grun cfg hh hq
     intro o ho
     split at ho
     · rcases List.mem_cons.mp ho with e | ho
       · subst e; exact trivial
-      · exact isReply_holdOk (hq o ho).1
+      · exact isReply_holdOk (hrep o ho).1
     · cases ho
   | link op x y =>
     have h' : ops = ctlOps w li (ctlOf op) x y := hs
     subst h'
-    exact held_grun cfg hh _ (ctlOps_holdOk w li op x y hno)
+    exact held_grun cfg hh hq _ (ctlOps_holdOk w li op x y hno)
   | linkPairs op xs ys =>
     have h' : ops = (pairList xs ys).flatMap (fun p => ctlOps w li (ctlOf op) p.1 p.2) := hs
     subst h'
-    apply held_grun cfg hh
+    apply held_grun cfg hh hq
     intro o ho
     obtain ⟨p, hp, hop⟩ := List.mem_flatMap.mp ho
     exact ctlOps_holdOk w li op p.1 p.2 (fun hc => hno ⟨hc.1, p, hp, hc.2⟩) o hop
@@ -167,24 +170,29 @@ theorem held_step (cfg : Cfg) (w : World) (st : Step) (li : Nat) (l : Link Env) 
     So no message that was in flight at the hold, and no message sent while the hold lasts, is handed
     to a host; a host can only still receive a message that had already matured (left the in-flight
     queue for the destination's deliverable queue) before the hold was imposed — `hold()` does not
-    touch that queue, in the model as in `top.rs` (`Link::hold` only walks `self.sent`). -/
+    touch that queue in the tree before the repair of F-C08-1 (`fixMatured = false`; `Link::hold` only
+    walked `self.sent`).  With the repair `hold` recalls the ready messages, both ready queues are empty
+    for as long as the hold lasts (hypothesis and conclusion `ReadyOK`; `readyOK_hold`), and nothing at all
+    is handed over: `LinksMatured.held_nothing_handed_fixed`. -/
 theorem held_nothing_delivered (w : World) (li : Nat) (l : Link Env) (hl : w.links[li]? = some l)
-    (hh : C08.Held l) (sts : List Step) (hno : ∀ p ∈ trail w sts, ¬ EndsHold p.1 li p.2) :
+    (hh : C08.Held l) (hq : ReadyOK l) (sts : List Step) (hno : ∀ p ∈ trail w sts, ¬ EndsHold p.1 li p.2) :
     ∃ l', (run w sts).links[li]? = some l' ∧ C08.Held l' ∧ (∃ new, l'.sent = l.sent ++ new) ∧
-      (l'.toA ++ l'.toB ++ handedOn li w sts).Perm (l.toA ++ l.toB) := by
-  obtain ⟨l', h1, h2⟩ := run_inv li w (fun _ l' H => HeldRel l l' H) (fun w st => ¬ EndsHold w li st)
+      (l'.toA ++ l'.toB ++ handedOn li w sts).Perm (l.toA ++ l.toB) ∧ ReadyOK l' ∧ l'.fixMatured = l.fixMatured := by
+  obtain ⟨l', h1, h2, h3⟩ := run_inv li w (fun _ l' H => HeldRel l l' H ∧ l'.fixMatured = l.fixMatured)
+    (fun w st => ¬ EndsHold w li st)
     (fun w' st lk ops H _ _ hA hlk hs _ hj => by
-      have := held_step w'.cfg.link w' st li lk ops hj.held hlk hs hA
+      have hqk : ReadyOK lk := hj.1.readyOK hj.2 hq
+      have := held_step w'.cfg.link w' st li lk ops hj.1.held hqk hlk hs hA
       rw [stepOps_out _ w' li lk ops st hlk hs] at this
-      exact hj.trans this)
-    sts l hl hno (HeldRel.refl hh)
-  exact ⟨l', h1, h2.held, h2.sent, h2.queues⟩
+      exact ⟨hj.1.trans this, (grun_flag _ _ _).trans hj.2⟩)
+    sts l hl hno ⟨HeldRel.refl hh, rfl⟩
+  exact ⟨l', h1, h2.held, h2.sent, h2.queues, h2.readyOK h3 hq, h3⟩
 
 /-- … in particular everything handed over during the hold had matured before it. -/
 theorem held_only_matured (w : World) (li : Nat) (l : Link Env) (hl : w.links[li]? = some l)
-    (hh : C08.Held l) (sts : List Step) (hno : ∀ p ∈ trail w sts, ¬ EndsHold p.1 li p.2) :
+    (hh : C08.Held l) (hq : ReadyOK l) (sts : List Step) (hno : ∀ p ∈ trail w sts, ¬ EndsHold p.1 li p.2) :
     ∀ x ∈ handedOn li w sts, x ∈ l.toA ∨ x ∈ l.toB := by
-  obtain ⟨l', _, _, _, hp⟩ := held_nothing_delivered w li l hl hh sts hno
+  obtain ⟨l', _, _, _, hp, _⟩ := held_nothing_delivered w li l hl hh hq sts hno
   intro x hx
   have : x ∈ l.toA ++ l.toB := hp.subset (by simp [hx])
   simpa using this
@@ -194,7 +202,7 @@ theorem held_only_matured (w : World) (li : Nat) (l : Link Env) (hl : w.links[li
 theorem held_nothing_at_all (w : World) (li : Nat) (l : Link Env) (hl : w.links[li]? = some l)
     (hh : C08.Held l) (hA : l.toA = []) (hB : l.toB = []) (sts : List Step)
     (hno : ∀ p ∈ trail w sts, ¬ EndsHold p.1 li p.2) : handedOn li w sts = [] := by
-  obtain ⟨l', _, _, _, hp⟩ := held_nothing_delivered w li l hl hh sts hno
+  obtain ⟨l', _, _, _, hp, _⟩ := held_nothing_delivered w li l hl hh (fun _ => ⟨hA, hB⟩) sts hno
   rw [hA, hB] at hp
   have h1 := hp.length_eq
   simp only [List.append_nil, List.length_append, List.length_nil] at h1
@@ -246,10 +254,10 @@ theorem mem_trail_step (w : World) (sts : List Step) (p : World × Step) (h : p 
 
 /-- `held_nothing_delivered` under the syntactic condition. -/
 theorem held_nothing_delivered_syntactic (w : World) (li : Nat) (l : Link Env) (hl : w.links[li]? = some l)
-    (hh : C08.Held l) (sts : List Step) (hno : ∀ st ∈ sts, isLinkCtl st = false) :
+    (hh : C08.Held l) (hq : ReadyOK l) (sts : List Step) (hno : ∀ st ∈ sts, isLinkCtl st = false) :
     ∃ l', (run w sts).links[li]? = some l' ∧ C08.Held l' ∧ (∃ new, l'.sent = l.sent ++ new) ∧
-      (l'.toA ++ l'.toB ++ handedOn li w sts).Perm (l.toA ++ l.toB) :=
-  held_nothing_delivered w li l hl hh sts
+      (l'.toA ++ l'.toB ++ handedOn li w sts).Perm (l.toA ++ l.toB) ∧ ReadyOK l' ∧ l'.fixMatured = l.fixMatured :=
+  held_nothing_delivered w li l hl hh hq sts
     (fun p hp => not_endsHold_of_syntactic p.1 li p.2 (hno p.2 (mem_trail_step w sts p hp)))
 
 /-- the steps that are `release(x, y)`: from the `Sim` handle or from host code. -/
@@ -343,9 +351,10 @@ def exHeld : List Step :=
 
 /-- the hypotheses of `held_nothing_delivered` / `held_nothing_at_all` / `hold_establishes_world` hold:
     the pair is joined by link 0, the link is held with one message in flight, no step ends the hold. -/
-example : Touches exW0 0 1 0 ∧ exW.links[0]? = some exL ∧ C08.Held exL ∧ exL.sent.map (·.id) = [0] ∧
+example : Touches exW0 0 1 0 ∧ exW.links[0]? = some exL ∧ C08.Held exL ∧ ReadyOK exL ∧ exL.sent.map (·.id) = [0] ∧
     exL.toA = [] ∧ exL.toB = [] ∧ (∀ st ∈ exHeld, isLinkCtl st = false) :=
-  ⟨by decide, by rfl, ⟨by decide, by decide, by decide⟩, by decide, by decide, by decide, by decide⟩
+  ⟨by decide, by rfl, ⟨by decide, by decide, by decide⟩, fun _ => ⟨by decide, by decide⟩, by decide, by decide, by decide,
+   by decide⟩
 /-- … and the conclusion is what happens: nothing is handed over, both messages are in flight, held. -/
 example : handedOn 0 exW exHeld = [] ∧
     ((run exW exHeld).links[0]?).map (fun l => l.sent.map (fun s => (s.id, s.status))) =
@@ -525,7 +534,9 @@ theorem partitioned_send_refused (w : World) (li s d : Nat) (e : Env) (l : Link 
 /-- **C03, in-flight messages are dropped** — one-way: after `partition_oneway(x, y)` (from the `Sim`
     handle or from host code) on a pair joined by link `li`, no message from `x` is in flight on the
     link any more; the messages of the reverse direction stay (in order), the reverse direction keeps
-    its state, and the deliverable queues are untouched. -/
+    its state.  The ready queues: untouched in the tree before the repair of F-C03-2
+    (`fixMatured = false`); with the repair the ready queue of the destination `y` is emptied too and the
+    other one (the reverse direction's) is untouched. -/
 theorem inflight_dropped (w : World) (x y li : Nat) (l : Link Env) (st : Step)
     (hst : IsCtlStep .partitionOneway x y st) (hl : w.links[li]? = some l) (hlt : l.a < l.b) (ht : Touches w x y li) :
     ∃ l', (applyStep w st).links[li]? = some l' ∧
@@ -534,22 +545,38 @@ theorem inflight_dropped (w : World) (x y li : Nat) (l : Link Env) (st : Step)
       l'.stateFor (w.host! x).ipnum (w.host! y).ipnum = .explicit ∧
       l'.exFor (w.host! x).ipnum (w.host! y).ipnum = true ∧
       l'.stateFor (w.host! y).ipnum (w.host! x).ipnum = l.stateFor (w.host! y).ipnum (w.host! x).ipnum ∧
-      l'.toA = l.toA ∧ l'.toB = l.toB := by
+      (l.fixMatured = false → l'.toA = l.toA ∧ l'.toB = l.toB) ∧
+      (l.fixMatured = true →
+        ((w.host! y).ipnum = l.a → l'.toA = [] ∧ l'.toB = l.toB) ∧ ((w.host! y).ipnum = l.b → l'.toA = l.toA ∧ l'.toB = [])) := by
   obtain ⟨h1, _, _⟩ := ctlStep_link w .partitionOneway x y li l st hst hl ht
   refine ⟨_, h1, ?_⟩
   have hd := touches_dir w x y li l hl hlt ht
   have hnlt : ¬ l.b < l.a := Nat.not_lt.mpr (Nat.le_of_lt hlt)
+  have hne : (l.b == l.a) = false := by simpa using (Nat.ne_of_gt hlt)
+  have hne' : l.a ≠ l.b := Nat.ne_of_lt hlt
   show (∀ m ∈ (l.partitionOneway _ _).1.sent, _) ∧ (l.partitionOneway _ _).1.sent = _ ∧ _
-  rcases hd with ⟨e1, e2⟩ | ⟨e1, e2⟩ <;> rw [e1, e2] <;>
-    simp [ctlOf, Ctl.fn, Link.partitionOneway, Link.stateFor, Link.exFor, hlt, hnlt]
+  rcases hd with ⟨e1, e2⟩ | ⟨e1, e2⟩ <;> rw [e1, e2] <;> cases hf : l.fixMatured <;>
+    simp [ctlOf, Ctl.fn, Link.partitionOneway, Link.clearReady, Link.stateFor, Link.exFor, hlt, hnlt, hf, hne, hne', hne'.symm]
 
-/-- … two-way: `partition(x, y)` discards everything in flight on the link, in both directions. -/
+/-- … two-way: `partition(x, y)` discards everything in flight on the link, in both directions; with the
+    repair of F-C03-2 also both ready queues (without it they are untouched). -/
 theorem inflight_dropped_twoway (w : World) (x y li : Nat) (l : Link Env) (st : Step)
     (hst : IsCtlStep .partition x y st) (hl : w.links[li]? = some l) (ht : Touches w x y li) :
     ∃ l', (applyStep w st).links[li]? = some l' ∧ l'.sent = [] ∧ l'.stAB = .explicit ∧ l'.stBA = .explicit ∧
-      l'.toA = l.toA ∧ l'.toB = l.toB := by
+      (l.fixMatured = false → l'.toA = l.toA ∧ l'.toB = l.toB) ∧ (l.fixMatured = true → l'.toA = [] ∧ l'.toB = []) := by
   obtain ⟨h1, _, _⟩ := ctlStep_link w .partition x y li l st hst hl ht
-  exact ⟨_, h1, rfl, rfl, rfl, rfl, rfl⟩
+  obtain ⟨_, _, es, e1, e2, _⟩ := Link.explicitPartition_fields l
+  refine ⟨_, h1, es, e1, e2, ?_, ?_⟩
+  · intro hf
+    show l.explicitPartition.1.toA = l.toA ∧ l.explicitPartition.1.toB = l.toB
+    unfold Link.explicitPartition
+    rw [hf]
+    exact ⟨rfl, rfl⟩
+  · intro hf
+    show l.explicitPartition.1.toA = [] ∧ l.explicitPartition.1.toB = []
+    unfold Link.explicitPartition
+    rw [hf]
+    exact ⟨rfl, rfl⟩
 
 /-- **C03 / C08, other links are unaffected**: a link-control call (any of the six, from the `Sim` handle
     or from host code), a manual delivery or `deliver_all` on a pair joined by link `li` leaves every
@@ -624,9 +651,9 @@ theorem not_usesHold_of_syntactic (w : World) (li : Nat) (st : Step)
 
 /-- the hypotheses of `partitioned_never_delivered`: repaired variant, a fresh link (invariant
     `inv2_init`), a run inside the alphabet — with a fail coin and a repair coin coming up in it. -/
-example : exC.cfg.link = Cfg.fixed ∧ exC.links[0]? = some ({ a := 1, b := 2, now := 0 } : Link Env) ∧
-    Inv2 ({ a := 1, b := 2, now := 0 } : Link Env) ∧ (∀ p ∈ trail exC exCsteps, ¬ UsesHold p.1 0 p.2) := by
-  refine ⟨rfl, by rfl, inv2_init 1 2 0 (by decide), ?_⟩
+example : exC.cfg.link = Cfg.fixed ∧ exC.links[0]? = some ({ a := 1, b := 2, now := 0, fixMatured := true } : Link Env) ∧
+    Inv2 ({ a := 1, b := 2, now := 0, fixMatured := true } : Link Env) ∧ (∀ p ∈ trail exC exCsteps, ¬ UsesHold p.1 0 p.2) := by
+  refine ⟨rfl, by rfl, inv2_init 1 2 0 (by decide) true, ?_⟩
   intro p hp
   have := mem_trail_step exC exCsteps p hp
   apply not_usesHold_of_syntactic
@@ -664,10 +691,10 @@ theorem never_duplicated (w : World) (li : Nat) (l : Link Env) (hl : w.links[li]
 /-- … so, during a hold, a message handed to a host is none of those that were in flight at the hold
     (and none sent later: those carry numbers `≥ nextId`, the handed ones `< nextId`). -/
 theorem held_not_inflight (w : World) (li : Nat) (l : Link Env) (hl : w.links[li]? = some l)
-    (hh : C08.Held l) (hid : IdsOK l []) (sts : List Step) (hno : ∀ p ∈ trail w sts, ¬ EndsHold p.1 li p.2) :
+    (hh : C08.Held l) (hq : ReadyOK l) (hid : IdsOK l []) (sts : List Step) (hno : ∀ p ∈ trail w sts, ¬ EndsHold p.1 li p.2) :
     ∀ x ∈ handedOn li w sts, x.id ∉ l.sent.map (·.id) ∧ x.id < l.nextId := by
   intro x hx
-  have hm := held_only_matured w li l hl hh sts hno x hx
+  have hm := held_only_matured w li l hl hh hq sts hno x hx
   have hnd : (l.sent.map (·.id) ++ (l.toA ++ l.toB).map (·.id)).Nodup := by
     have := hid.nodup
     simpa [C08.ids, List.append_assoc] using this
@@ -756,11 +783,12 @@ theorem flow_step (w : World) (st : Step) (li : Nat) (l : Link Env) (ops : List 
 
 /-- the end points of a link never change. -/
 theorem run_ends (w : World) (li : Nat) (l : Link Env) (hl : w.links[li]? = some l) (sts : List Step) :
-    ∃ l', (run w sts).links[li]? = some l' ∧ l'.a = l.a ∧ l'.b = l.b := by
-  obtain ⟨l', h1, h2⟩ := run_inv li w (fun _ l' _ => l'.a = l.a ∧ l'.b = l.b) (fun _ _ => True)
+    ∃ l', (run w sts).links[li]? = some l' ∧ l'.a = l.a ∧ l'.b = l.b ∧ l'.fixMatured = l.fixMatured := by
+  obtain ⟨l', h1, h2⟩ := run_inv li w (fun _ l' _ => l'.a = l.a ∧ l'.b = l.b ∧ l'.fixMatured = l.fixMatured) (fun _ _ => True)
     (fun w' st lk ops H _ _ _ _ _ _ hj =>
-      ⟨(grun_ab w'.cfg.link lk ops).1.trans hj.1, (grun_ab w'.cfg.link lk ops).2.trans hj.2⟩)
-    sts l hl (fun _ _ => trivial) ⟨rfl, rfl⟩
+      ⟨(grun_ab w'.cfg.link lk ops).1.trans hj.1, (grun_ab w'.cfg.link lk ops).2.trans hj.2.1,
+       (grun_flag w'.cfg.link lk ops).trans hj.2.2⟩)
+    sts l hl (fun _ _ => trivial) ⟨rfl, rfl, rfl⟩
   exact ⟨l', h1, h2⟩
 
 theorem run_cfg (w : World) (sts : List Step) : (run w sts).cfg = w.cfg := by
@@ -851,24 +879,114 @@ theorem matures_at_tick (w : World) (li : Nat) (l : Link Env) (x : Sent Env) (T 
   rw [hl] at e
   exact ⟨_, e, moves_on_tick hx hs _ hT, rfl, rfl⟩
 
+/-- steps that take messages out of the ready queues of link `li` when it carries the repair of
+    F-C08-1 / F-C03-2: `hold`, `partition`, `partition_oneway` on a pair joined by it. -/
+def RecallsOn (w : World) (li : Nat) : Step → Prop
+  | .link op x y => (op = .hold ∨ op = .partition ∨ op = .partitionOneway) ∧ Touches w x y li
+  | .linkPairs op xs ys => (op = .hold ∨ op = .partition ∨ op = .partitionOneway) ∧ ∃ p ∈ pairList xs ys, Touches w p.1 p.2 li
+  | .host _ hop =>
+      match hop with
+      | .net op x y => (op = .hold ∨ op = .partition ∨ op = .partitionOneway) ∧ Touches w x y li
+      | _ => False
+  | _ => False
+
+theorem ctlOps_noRecall (w : World) (li : Nat) (op : NetCtl) (x y : Nat)
+    (h : ¬ ((op = .hold ∨ op = .partition ∨ op = .partitionOneway) ∧ Touches w x y li)) :
+    ∀ o ∈ ctlOps w li (ctlOf op) x y, ¬ RecallOp o := by
+  intro o ho
+  unfold ctlOps at ho
+  split at ho
+  · rename_i ht
+    simp only [List.mem_singleton] at ho
+    subst ho
+    cases op with
+    | hold => exact absurd ⟨Or.inl rfl, ht⟩ h
+    | partition => exact absurd ⟨Or.inr (Or.inl rfl), ht⟩ h
+    | partitionOneway => exact absurd ⟨Or.inr (Or.inr rfl), ht⟩ h
+    | _ => exact fun hc => hc
+  · cases ho
+
+theorem isSend_noRecall {a b : Nat} {o : GOp} (h : IsSend a b o) : ¬ RecallOp o := by
+  cases o <;> simp [IsSend, RecallOp] at h ⊢
+theorem isReply_noRecall {ms : List (Sent Env)} {o : GOp} (h : IsReply ms o) : ¬ RecallOp o := by
+  cases o <;> simp [IsReply, RecallOp] at h ⊢
+
+theorem noRecall_step (w : World) (st : Step) (li : Nat) (l : Link Env) (ops : List GOp)
+    (hs : StepOps w li l ops st) (hno : ¬ RecallsOn w li st) : ∀ o ∈ ops, ¬ RecallOp o := by
+  cases st with
+  | host h hop =>
+    cases hop
+    case net c a b =>
+      have h' : ops = ctlOps w li (ctlOf c) a b := hs
+      subst h'
+      exact ctlOps_noRecall w li c a b hno
+    all_goals exact fun o ho => isSend_noRecall ((hs : Sends w l ops) o ho).1
+  | crash h => exact fun o ho => isSend_noRecall ((hs : Sends w l ops) o ho).1
+  | bounce h => exact fun o ho => isSend_noRecall ((hs : Sends w l ops) o ho).1
+  | register ip c => have h' : ops = [] := hs; subst h'; exact fun _ ho => by cases ho
+  | dns n => have h' : ops = [] := hs; subst h'; exact fun _ ho => by cases ho
+  | stepEnd => have h' : ops = [] := hs; subst h'; exact fun _ ho => by cases ho
+  | loDeliver a b => have h' : ops = [] := hs; subst h'; exact fun _ ho => by cases ho
+  | stepBegin =>
+    have h' : ops = [.tick (w.now + ceilMs w.cfg.tick)] := hs
+    subst h'
+    exact fun o ho => by simp only [List.mem_singleton] at ho; subst ho; exact fun hc => hc
+  | turn h =>
+    obtain ⟨replies, hq, he⟩ := hs
+    subst he
+    intro o ho
+    split at ho
+    · rcases List.mem_cons.mp ho with e | ho
+      · subst e; exact fun hc => hc
+      · exact isReply_noRecall (hq o ho).1
+    · cases ho
+  | link op x y =>
+    have h' : ops = ctlOps w li (ctlOf op) x y := hs
+    subst h'
+    exact ctlOps_noRecall w li op x y hno
+  | linkPairs op xs ys =>
+    have h' : ops = (pairList xs ys).flatMap (fun p => ctlOps w li (ctlOf op) p.1 p.2) := hs
+    subst h'
+    intro o ho
+    obtain ⟨p, hp, hop⟩ := List.mem_flatMap.mp ho
+    exact ctlOps_noRecall w li op p.1 p.2 (fun hc => hno ⟨hc.1, p, hp, hc.2⟩) o hop
+  | deliver x y i =>
+    have h' : ops = ctlOps w li (fun _ _ => .manual i) x y := hs
+    subst h'
+    intro o ho
+    unfold ctlOps at ho
+    split at ho
+    · simp only [List.mem_singleton] at ho; subst ho; exact fun hc => hc
+    · cases ho
+  | deliverAll x y =>
+    have h' : ops = if Touches w x y li then (List.range l.sent.length).map (fun i => GOp.ctl (.manual i)) else [] := hs
+    subst h'
+    intro o ho
+    split at ho
+    · obtain ⟨i, _, rfl⟩ := List.mem_map.mp ho; exact fun hc => hc
+    · cases ho
+
 /-- **C14, waiting for the turn.**  Once in its destination's deliverable queue, a message stays there
-    through EVERY sequence of steps (controller calls included — none of them touches the deliverable
-    queues) until the link hands it to a host. -/
+    through EVERY sequence of steps until the link hands it to a host — in the tree before the repair of
+    F-C08-1 / F-C03-2 without exception (no controller call touches the ready queues); with the repair
+    (`fixMatured`) unless a `hold` recalls it or an explicit partition discards it (`RecallsOn`). -/
 theorem waits_until_handed (w : World) (li : Nat) (l : Link Env) (x : Sent Env) (hl : w.links[li]? = some l)
-    (hx : inQueue l x) (sts : List Step) :
+    (hx : inQueue l x) (sts : List Step) (hsafe : l.fixMatured = true → ∀ p ∈ trail w sts, ¬ RecallsOn p.1 li p.2) :
     ∃ l', (run w sts).links[li]? = some l' ∧ l'.a = l.a ∧ l'.b = l.b ∧ (inQueue l' x ∨ x ∈ handedOn li w sts) := by
-  obtain ⟨l', h1, h2, h3, h4⟩ := run_inv li w (fun _ l' H => l'.a = l.a ∧ l'.b = l.b ∧ (inQueue l' x ∨ x ∈ H)) (fun _ _ => True)
-    (fun w' st lk ops H _ _ _ hlk hst _ hj => by
-      obtain ⟨j1, j2, j3⟩ := hj
+  obtain ⟨l', h1, h2, h3, _, h4⟩ := run_inv li w
+    (fun _ l' H => l'.a = l.a ∧ l'.b = l.b ∧ l'.fixMatured = l.fixMatured ∧ (inQueue l' x ∨ x ∈ H))
+    (fun w st => l.fixMatured = true → ¬ RecallsOn w li st)
+    (fun w' st lk ops H _ _ hA hlk hst _ hj => by
+      obtain ⟨j1, j2, jf, j3⟩ := hj
       have hab := grun_ab w'.cfg.link lk ops
-      refine ⟨hab.1.trans j1, hab.2.trans j2, ?_⟩
+      refine ⟨hab.1.trans j1, hab.2.trans j2, (grun_flag _ _ _).trans jf, ?_⟩
       rcases j3 with j3 | j3
-      · rcases waits_grun w'.cfg.link j3 ops with k | k
+      · rcases waits_grun w'.cfg.link j3 ops (fun hf => noRecall_step w' st li lk ops hst (hA (jf ▸ hf))) with k | k
         · exact Or.inl k
         · rw [stepOps_out _ w' li lk ops st hlk hst] at k
           exact Or.inr (List.mem_append_right _ k)
       · exact Or.inr (List.mem_append_left _ j3))
-    sts l hl (fun _ _ => trivial) ⟨rfl, rfl, Or.inl hx⟩
+    sts l hl (fun p hp hf => hsafe hf p hp) ⟨rfl, rfl, rfl, Or.inl hx⟩
   exact ⟨l', h1, h2, h3, h4⟩
 
 /-- **C14, the hand-over.**  The turn of the host the message waits for hands it over. -/
@@ -903,6 +1021,7 @@ theorem healthy_delivered_in_window (w : World) (li hb : Nat) (l : Link Env) (x 
     (hx : x ∈ l.sent) (hs : x.status = .after (t0 + d)) (hnf : C09.NoFailCoin w)
     (sts1 sts2 : List Step) (hq : ∀ p ∈ trail w sts1, ¬ CtlOn p.1 li p.2)
     (hbefore : (run w sts1).now < t0 + d) (hreach : t0 + d ≤ (run w sts1).now + ceilMs w.cfg.tick)
+    (hsafe : l.fixMatured = true → ∀ p ∈ trail (run w (sts1 ++ [.stepBegin])) sts2, ¬ RecallsOn p.1 li p.2)
     (hr : Receiver l x ((run w (sts1 ++ [.stepBegin] ++ sts2)).host! hb).ipnum)
     (hd : minL ≤ d ∧ d ≤ maxL) :
     (∀ y ∈ handedOn li w sts1, y ≠ x) ∧
@@ -913,12 +1032,16 @@ theorem healthy_delivered_in_window (w : World) (li hb : Nat) (l : Link Env) (x 
       s + minL ≤ (run w (sts1 ++ [.stepBegin])).now + ceilMs w.cfg.tick ∧
       (run w (sts1 ++ [.stepBegin])).now ≤ s + maxL + ceilMs w.cfg.tick) := by
   obtain ⟨l1, e1, x1, _, _, early⟩ := not_delivered_early w li l x (t0 + d) hl hm hclk hx hs hnf sts1 hq hbefore
-  obtain ⟨l1', e1', a1, b1⟩ := run_ends w li l hl sts1
+  obtain ⟨l1', e1', a1, b1, f1⟩ := run_ends w li l hl sts1
   rw [e1] at e1'; cases e1'
   have hcfg1 := run_cfg w sts1
   obtain ⟨l2, e2, q2, a2, b2⟩ := matures_at_tick (run w sts1) li l1 x (t0 + d) e1 x1 hs (by rw [hcfg1]; exact hreach)
   have e2' : (run w (sts1 ++ [.stepBegin])).links[li]? = some l2 := by rw [run_append]; exact e2
+  have f2 : l2.fixMatured = l.fixMatured := by
+    obtain ⟨l2', e2'', _, _, f2'⟩ := run_ends w li l hl (sts1 ++ [.stepBegin])
+    rw [e2'] at e2''; cases e2''; exact f2'
   obtain ⟨l3, e3, a3, b3, q3⟩ := waits_until_handed (run w (sts1 ++ [.stepBegin])) li l2 x e2' q2 sts2
+    (fun hf => hsafe (f2 ▸ hf))
   have e3' : (run w (sts1 ++ [.stepBegin] ++ sts2)).links[li]? = some l3 := by rw [run_append]; exact e3
   have hr3 : Receiver l3 x ((run w (sts1 ++ [.stepBegin] ++ sts2)).host! hb).ipnum :=
     receiver_congr (a3.trans (a2.trans a1)) (b3.trans (b2.trans b1)) x _ hr
@@ -1159,10 +1282,10 @@ example :
   refine ⟨by decide, by unfold C09.NoFailCoin; decide⟩
 /-- `never_duplicated`, `equal_latency_fifo`, `partitioned_never_delivered`: a freshly registered link
     satisfies the three link invariants. -/
-example : exC.links[0]? = some ({ a := 1, b := 2, now := 0 } : Link Env) ∧
-    IdsOK ({ a := 1, b := 2, now := 0 } : Link Env) [] ∧ FifoInv 1 ({ a := 1, b := 2, now := 0 } : Link Env) [] ∧
-    Matured ({ a := 1, b := 2, now := 0 } : Link Env) :=
-  ⟨by rfl, idsOK_init 1 2 0, fifo_init 1 2 0, fun y hy => by rcases hy with hy | hy <;> cases hy⟩
+example : exC.links[0]? = some ({ a := 1, b := 2, now := 0, fixMatured := true } : Link Env) ∧
+    IdsOK ({ a := 1, b := 2, now := 0, fixMatured := true } : Link Env) [] ∧ FifoInv 1 ({ a := 1, b := 2, now := 0, fixMatured := true } : Link Env) [] ∧
+    Matured ({ a := 1, b := 2, now := 0, fixMatured := true } : Link Env) :=
+  ⟨by rfl, idsOK_init 1 2 0 true, fifo_init 1 2 0 true, fun y hy => by rcases hy with hy | hy <;> cases hy⟩
 /-- FIFO in action: three datagrams with delays 3 ms, 3 ms, 1 ms — the third legitimately overtakes, the
     two with equal latency arrive in send order. -/
 example :
@@ -1192,13 +1315,16 @@ theorem endsHold_exact (w : World) (x y li : Nat) (l : Link Env) (hl : w.links[l
     refine ⟨_, h1, fun hh => ?_⟩
     cases op with
     | hold => exact hop rfl
-    | partition => exact absurd hh.ab (by simp [ctlOf, Ctl.fn, Link.explicitPartition])
+    | partition =>
+      have := (Link.explicitPartition_fields l).2.2.2.1
+      exact absurd (this.symm.trans hh.ab) (by decide)
     | repair => exact absurd hh.ab (by simp [ctlOf, Ctl.fn, Link.explicitRepair])
     | release => exact absurd hh.ab (by simp [ctlOf, Ctl.fn, Link.release])
     | partitionOneway =>
+      obtain ⟨_, _, _, e1, e2, _⟩ := Link.partitionOneway_fields l (w.host! x).ipnum (w.host! y).ipnum
       by_cases hlt : (w.host! x).ipnum < (w.host! y).ipnum
-      · exact absurd hh.ab (by simp [ctlOf, Ctl.fn, Link.partitionOneway, hlt])
-      · exact absurd hh.ba (by simp [ctlOf, Ctl.fn, Link.partitionOneway, hlt])
+      · rw [if_pos hlt] at e1; exact absurd (e1.symm.trans hh.ab) (by decide)
+      · rw [if_neg hlt] at e2; exact absurd (e2.symm.trans hh.ba) (by decide)
     | repairOneway =>
       by_cases hlt : (w.host! x).ipnum < (w.host! y).ipnum
       · exact absurd hh.ab (by simp [ctlOf, Ctl.fn, Link.repairOneway, hlt])
@@ -1211,23 +1337,32 @@ theorem endsHold_exact (w : World) (x y li : Nat) (l : Link Env) (hl : w.links[l
     rw [e] at this
     cases this
 
-/-- **C08 in one statement**: `hold(x, y)` on a pair joined by link `li`, then ANY steps none of which
-    ends the hold: everything the link hands to hosts meanwhile was already in a deliverable queue when
-    `hold` was called — in particular none of the messages in flight at the call (`l.sent`) and none
-    sent afterwards; those are all still in flight, held, in order, at the end. -/
+theorem readyOK_hold (l : Link Env) : ReadyOK l.hold := by
+  intro hf
+  rw [hold_flag] at hf
+  unfold Link.hold
+  rw [hf]
+  exact ⟨rfl, rfl⟩
+
+/-- **C08 in one statement** (both variants): `hold(x, y)` on a pair joined by link `li`, then ANY steps
+    none of which ends the hold: everything the link hands to hosts meanwhile was already in a ready
+    queue when `hold` was called — in particular none of the messages in flight at the call and none
+    sent afterwards; those are all still in flight, held, in order, at the end (behind what `hold` made of
+    the in-flight queue: `l.hold.sent` = `l.sent`, preceded under the repair of F-C08-1 by the recalled
+    ready messages).  With the repair nothing at all is handed over: `held_nothing_handed_fixed`. -/
 theorem hold_then_nothing_delivered (w : World) (x y li : Nat) (l : Link Env) (hl : w.links[li]? = some l)
     (ht : Touches w x y li) (sts : List Step)
     (hno : ∀ p ∈ trail (applyStep w (.link .hold x y)) sts, ¬ EndsHold p.1 li p.2) :
     (∀ m ∈ handedOn li w (.link .hold x y :: sts), m ∈ l.toA ∨ m ∈ l.toB) ∧
     ∃ l', (run w (.link .hold x y :: sts)).links[li]? = some l' ∧ C08.Held l' ∧
-      ∃ new : List (Sent Env), l'.sent.map (·.id) = l.sent.map (·.id) ++ new.map (·.id) ∧ ∀ s ∈ new, s.status = Status.hold := by
+      ∃ new : List (Sent Env), l'.sent = l.hold.sent ++ new ∧ ∀ s ∈ new, s.status = Status.hold := by
   obtain ⟨e1, hh⟩ := hold_establishes_world w x y li l hl ht
-  obtain ⟨l', h1, h2, ⟨new, h3⟩, _⟩ := held_nothing_delivered _ li l.hold e1 hh sts hno
-  refine ⟨fun m hm => ?_, l', h1, h2, new, ?_, fun s hs => h2.all s (by rw [h3]; exact List.mem_append_right _ hs)⟩
-  · have : m ∈ handedOn li (applyStep w (.link .hold x y)) sts := by simpa [handedOn, handed] using hm
-    exact held_only_matured _ li l.hold e1 hh sts hno m this
-  · rw [h3, List.map_append]
-    congr 1
-    simp [Link.hold, List.map_map, Function.comp_def]
+  obtain ⟨l', h1, h2, ⟨new, h3⟩, _⟩ := held_nothing_delivered _ li l.hold e1 hh (readyOK_hold l) sts hno
+  refine ⟨fun m hm => ?_, l', h1, h2, new, h3, fun s hs => h2.all s (by rw [h3]; exact List.mem_append_right _ hs)⟩
+  have : m ∈ handedOn li (applyStep w (.link .hold x y)) sts := by simpa [handedOn, handed] using hm
+  have hsub := ctl_queues_sub .hold l
+  rcases held_only_matured _ li l.hold e1 hh (readyOK_hold l) sts hno m this with h | h
+  · exact Or.inl (hsub.1.subset h)
+  · exact Or.inr (hsub.2.subset h)
 
 end TV.LinksWorld
